@@ -104,7 +104,8 @@ void Application::Stop(bool runtimeRemoved)
 
 Application::~Application()
 {
-	m_Instance = nullptr;
+	if (m_Instance == this)
+		m_Instance = nullptr;
 }
 
 void Application::Exit(int rc)
